@@ -54,6 +54,11 @@ def rand_band(rng, clsname, nchan, rate=None):
     lo = max(bwhz * nchan, 1e6)
     hi = min(max(lo * 10, 1e11), bwhz * 1e8)
     fc = gen.rand_freq(rng, lo, max(hi, lo * 1.01))
+    r = gen._side_rng(rng).random()
+    if r < 0.12:
+        # bands at, across and below 0 Hz (a DFT band centred on DC, the image band): labels follow the same formula
+        k = int(gen._side_rng(rng).integers(4))
+        fc = [0 * fc.unit, -fc, bw * float(gen._side_rng(rng).uniform(-nchan / 2, nchan / 2)), (bw * (nchan // 2 + 3)).to(fc.unit)][k]
     return rate, fc, bw
 
 
@@ -84,8 +89,9 @@ def wl_construct(ctx, idx, rng):
         ctx.count("oracle[band_model_after_setter]")
         for code, text in probs:
             ctx.violation("band_model", "after setter: " + text, None, {"what": code, "after_setter": True})
-        bwr = float(sig.chan_bw.to_value(u.Hz)) / float(sig.center_freq.to_value(u.Hz))
-        ctx.bucket("construct", clsname, nchan, sig.freq_align, int(np.floor(np.log10(bwr))))
+        fchz_ = float(sig.center_freq.to_value(u.Hz))
+        bwr = float(sig.chan_bw.to_value(u.Hz)) / abs(fchz_) if fchz_ else 0.0
+        ctx.bucket("construct", clsname, nchan, sig.freq_align, int(np.floor(np.log10(bwr))) if bwr > 0 else "dc", "neg" if fchz_ < 0 else "pos")
 
 
 def rand_frange(rng, nchan):
